@@ -296,7 +296,8 @@ class Textgrid:
 
         maxTimestamp = self.maxTimestamp
         if doShrink is True:
-            maxTimestamp -= diff
+            # Same computation as in the tiers, so that they share the new span
+            maxTimestamp = max(maxTimestamp - diff, start)
 
         newTG = Textgrid(self.minTimestamp, self.maxTimestamp)
         for tier in self.tiers:
